@@ -27,7 +27,7 @@ def main():
         from mirsym import check_trees
         sys.exit(check_trees.replay_file(a.replay))
     from mirsym import check_kani, check_trees, check_seg, common
-    SEG_PROPS = {'C03', 'C16', 'C12', 'C15', 'C10'}
+    SEG_PROPS = {'C03', 'C16', 'C12', 'C15', 'C10', 'C14'}
     import time
     t0 = time.time()
     rdir = os.path.join(common.evidence_dir(), 'replay')
